@@ -1407,6 +1407,13 @@ pub fn run_sock_frames(ctx: &Ctx) -> i32 {
                         if large_at == Some(i) {
                             let value = vec![b'L'; rng.gen_range(70_000..200_000)];
                             wire::store(op::SET, b"key3", &value, 4, 0, 0x3000 + i as u32, 0).encode_into(&mut stream);
+                            // ghost-header followers: should a connection ever lose the first 12 bytes of the header that
+                            // follows a large request (they arrive with its tail, see the cut sets below), the rest of this
+                            // NOOP (its opaque and cas) plus the first 12 bytes of the GET read as a complete NOOP request
+                            // with opaque 0x80000004, which no request of the stream carries: the loss then surfaces as an
+                            // uncorrelated response (C11), not only as a closed connection
+                            wire::simple(op::NOOP, 0x800a_0000).encode_into(&mut stream);
+                            wire::get(op::GET, b"key3", 0x3100 + i as u32).encode_into(&mut stream);
                         }
                         if near_at == Some(i) {
                             let key: &[u8] = [&b"a"[..], b"bb", b"key3"][rng.gen_range(0..3)];
@@ -1420,6 +1427,15 @@ pub fn run_sock_frames(ctx: &Ctx) -> i32 {
                     let table = frame::frame_table(&stream, limit);
                     let n = stream.len();
                     let mut cutsets: Vec<Vec<usize>> = vec![vec![]];
+                    // the tail of a large request together with the first k bytes of the next header (k = 12 first: the
+                    // ghost-header followers above)
+                    for f in table.iter().filter(|f| !f.too_large && f.body_len > 65_536) {
+                        for k in [12usize, 1, 8, 16, 23] {
+                            if f.end + k < n {
+                                cutsets.push(vec![f.end + k]);
+                            }
+                        }
+                    }
                     cutsets.push((1..n).step_by(1).take(400).collect()); // byte at a time (first 400 bytes)
                     let mut hb = vec![];
                     let mut mh = vec![];
